@@ -93,6 +93,15 @@ CHECKS = {
              "and thread schedules` is DERIVED from these facts (safe code cannot duplicate a handle; all shared state is inside std::sync::Arc), not enumerated.",
         note="trusts std::sync::Arc; schedules are not explored -- the rules are schedule-independent",
         ref="4 C10"),
+    "C11": dict(
+        cat="other",
+        technique="symbolic execution of each operation's success path in an affine domain (linear expressions over data/len/index, fields re-versioned by reserve) compared with Vec's specification; dominance of index guards; positional raw-parts rules for the stored functions",
+        text="per-operation summaries (where is written/read/copied, how many elements, new length, which guard) are decided exactly by abstract interpretation "
+             "of the MIR and compared with Vec's documented semantics; growth/free are shown to go through the stored functions with (data, len, capacity) in order. "
+             "Equality of contents over arbitrary operation sequences is NOT executed: it is the inductive consequence of each operation preserving "
+             "`len <= capacity` and `[0,len) initialised`.",
+        note="partial claim (per-operation; sequences by induction). Trusts Vec/ptr primitive semantics; zero-sized T relies on Vec's handling inside reserve",
+        ref="4 C11"),
     "C12": dict(
         cat="other",
         technique="MIR origin tracing (def-use) and discriminant-arm rules over every function that builds/rebuilds slice views or converts option/result/tuple forms",
